@@ -85,7 +85,7 @@ def fit(ty, v):
     if ty == '!':
         v = float(v)
         if math.isinf(v) or math.isnan(v):
-            return v
+            raise QBError('overflow')
         if abs(v) > F32_MAX:
             # rounds to a finite float32 only very close to the limit
             try:
@@ -94,7 +94,10 @@ def fit(ty, v):
                 raise QBError('overflow')
         return f32(v)
     if ty == '#':
-        return float(v)
+        v = float(v)
+        if math.isinf(v) or math.isnan(v):
+            raise QBError('overflow')
+        return v
     raise ValueError(ty)
 
 
@@ -368,7 +371,7 @@ class Interp:
         x, y = fit(w, va), fit(w, vb)
         r = {'+': x + y, '-': x - y, '*': x * y}[op]
         if w in '!#' and (math.isinf(r) or math.isnan(r)):
-            raise Inconclusive('float overflow')
+            raise QBError('overflow')
         return w, fit(w, r)
 
     def builtin(self, name, args):
